@@ -283,7 +283,11 @@ fn policy_of(v: &Val) -> table::PolicyAssignment {
             community: None,
             local_pref: None,
             med,
-            as_prepend: None,
+            as_prepend: v.list().get(4).and_then(|o| o.list().first()).map(|a| table::AsPrependAction {
+                asn: a.at(0).u32(),
+                repeat: a.at(1).u32(),
+                use_left_most: a.at(2).bool(),
+            }),
             ext_community: None,
             large_community: None,
             origin: None,
@@ -495,7 +499,8 @@ fn run_case(case: &Val) -> Val {
         //   emap   = [0] | [1, dests] | [2, [[dest, [pids]]..]]
         9 => run_process(case, None),
         // [12, ..as 9.., policy]: the same with a real one-statement export policy
-        //   policy = [nh_action(opt), med_action(opt), statement disposition, default disposition]
+        //   policy = [nh_action(opt), med_action(opt), statement disposition, default disposition, as_prepend(opt)]
+        //   as_prepend = [asn, repeat, use_left_most]
         //   nh_action = [0, ip] | [1] self | [2] peer | [3] unchanged; med_action = [0, delta] | [1, value]
         //   disposition: 0 pass, 1 accept, 2 reject
         12 => {
